@@ -86,7 +86,14 @@ def run_case(prog, style: str, rseed: int, bindings, specs=None, use_reference=F
     out["emission"], out["problems"] = em, problems
     # --- model-free oracle
     if specs is None:
-        specs = [L.eval_numpy(prog, b) for b in bindings]
+        specs = []
+        for b in bindings:
+            try:
+                specs.append(L.eval_numpy(prog, b))
+            except L.PartialOp:
+                specs.append(None)
+    live = [(b, sp) for b, sp in zip(bindings, specs) if sp is not None]
+    bindings, specs = [b for b, _ in live], [sp for _, sp in live]
     names = [o.name for o in model.graph.output]
     # (the ORDER of inputs / outputs is C03's business; C01 needs the requested names to be there)
     if sorted(names) != sorted(R.outputs):
@@ -317,6 +324,8 @@ def run(ck: core.Check):
     n_skel = len(programs)
     for _ in range(ck.pick(60, 600)):  # scalar-attribute operators with unusual values, twins constructed first
         programs.append((L.gen_attr_program(random.Random(rng.getrandbits(48))), "attr"))
+    for prog, tag in L.partial_programs():  # bodies that must not be evaluated for some binding
+        programs.append((prog, "partial:" + tag))
     for prog, tag in L.deep_programs(random.Random(rng.getrandbits(48)), ck.pick(1, 3)):
         programs.append((prog, "deep:" + tag))
     for i in range(n_random):
@@ -342,8 +351,14 @@ def run(ck: core.Check):
         bad = L.check_wellformed(prog) + L.typecheck(prog)
         if bad:
             raise RuntimeError(f"generator produced an ill-formed program: {bad[:2]}")
-        bindings = [L.random_binding(prog, rng) for _ in range(n_bind)]
-        specs = [L.eval_numpy(prog, b) for b in bindings]
+        bindings = [L.random_binding(prog, rng, bi) for bi in range(n_bind)]
+        specs = []
+        for b in bindings:
+            try:
+                specs.append(L.eval_numpy(prog, b))
+            except L.PartialOp:  # the dataflow has no value for this binding: nothing to compare
+                specs.append(None)
+                stats["bindings_without_a_value"] += 1
         d = L.depth_of(prog)
         hist_depth[d] += 1
         for n in prog["nodes"]:
